@@ -189,6 +189,14 @@ pub fn execute(case: &Case) -> Outcome {
         let mut get1 = Request::get(op::GET, b"cfg");
         get1.opaque = 41;
         step(&mut c, get1, "get of the first key after a second one was stored (memory limit not reached)", &|r| r.status == status::OK && r.value() == b"42", &mut viols, &mut fp);
+        // a delayed flush that is not yet due changes nothing visible - under every runtime flavour
+        // (the walk over the store must not depend on which scheduler runs the connection)
+        let mut fl = Request::flush(op::FLUSH, Some(3600));
+        fl.opaque = 42;
+        step(&mut c, fl, "flush with a delay of one hour", &|r| r.status == status::OK, &mut viols, &mut fp);
+        let mut get2 = Request::get(op::GET, b"cfg2");
+        get2.opaque = 43;
+        step(&mut c, get2, "get right after a flush that is due in an hour", &|r| r.status == status::OK && r.value() == b"other", &mut viols, &mut fp);
         // ---- (2) the configured item size limit is the one enforced
         let big = vec![b'z'; item as usize + 1];
         let mut over = Request::store(op::SET, b"big", &big, 0, 0, 0);
